@@ -7,7 +7,13 @@ import os
 import lib
 
 
-def lit(c):
+MODES = {'C03': 0, 'C04': 1, 'C07': 1, 'C08': 2}
+# which model-independent oracles belong to which property
+ORACLES_OF = {'C03': ('oracle:column-hit-runs-functions',), 'C08': ('oracle:column-hit-runs-functions',), 'C07': (),
+              'C04': ('oracle:column-wrong-value', 'oracle:column-request-fails', 'oracle:column-unknown-key', 'oracle:failed-column-request-stores')}
+
+
+def lit(c, mode):
     names = c['names']
     reqs = []
     for o in c['ops']:
@@ -24,7 +30,7 @@ def lit(c):
                         'true' if o['new'] else 'false', col, lib.cstr(o['key']), lib.clist([lib.cstr(k) for k in o['keys']]),
                         'None' if o['size'] is None else f'Some {o["size"]}', lib.clist([lib.cstr(k) for k in fh]),
                         lib.clist([f'({c_}, {lib.cstr(k)})' for c_, k in fv]), exp, lib.clist([lib.cstr(x) for x in o['log']]), o['disk']))
-    return '(' + lib.clist([lib.cstr(n) for n in names]) + ', ' + lib.clist(reqs) + ')'
+    return f'({mode}, ' + lib.clist([lib.cstr(n) for n in names]) + ', ' + lib.clist(reqs) + ')'
 
 
 def oracles(cases, tag):
@@ -71,16 +77,16 @@ def add(ctx, res, tag, n_quick=150, n_thorough=1500):
     else:
         cases = json.load(open(out))['cases']
         v, k = oracles(cases, tag)
-        extra += v
-        shards = lib.write_shards(ctx['pid'], 'colmodel', ['Values', 'ColStore', 'CheckLib'], 'list string * list colreq', 'check_columns',
-                                  [lit(c) for c in cases], per=100)
+        extra += [x for x in v if x['signature'] in ORACLES_OF.get(tag, ())]
+        shards = lib.write_shards(ctx['pid'], 'colmodel', ['Values', 'ColStore', 'CheckLib'], 'nat * list string * list colreq', 'check_columns',
+                                  [lit(c, MODES.get(tag, 0)) for c in cases], per=100)
         total, bad, errors = lib.run_shards(shards)
         for i, code in bad[:2]:
             c = cases[i]
             o = c['ops'][code - 1]
             extra.append({'signature': 'corr:columns', 'case': {'orders': c['orders'], 'names': c['names'], 'shard': c['shard'], 'ops': c['ops'][:code]},
                           'observed': {'res': o['res'], 'log': o['log'], 'disk': o['disk']},
-                          'what': f'{tag}: CacheColumns and Model/Columns.v disagree at request {code - 1} of sequence {i}: {o["col"]}({o["key"]}) over the ids '
+                          'what': f'{tag}: CacheColumns and Model/Columns.v disagree (' + {0: 'outcome, calls in order, disk entries', 1: 'outcome, disk entries', 2: 'outcome, hit or miss'}[MODES.get(tag, 0)] + f') at request {code - 1} of sequence {i}: {o["col"]}({o["key"]}) over the ids '
                                   f'{o["keys"]} (shard size {o["size"]}, raising: {o["fails"]}) gave {o["res"]}, ran {o["log"]} and left {o["disk"]} disk entries'})
         for e in errors:
             extra.append({'signature': 'harness-error', 'what': e, 'case': None})
@@ -102,5 +108,5 @@ def add(ctx, res, tag, n_quick=150, n_thorough=1500):
     res['oracle_checks'] = res.get('oracle_checks', 0) + k
     res['rule'] = res.get('rule', '') + ('; plus request sequences through CacheColumns (1-3 columns over a hash-by-value parameter, shard size None / int / float, '
                                          'three orders or a superset of the ids, rebuilt pipelines over the same folders, user functions raising for single keys, unknown keys) '
-                                         'against Model/Columns.v: outcome, calls of the user functions in order, number of disk entries')
+                                         'against Model/Columns.v: ' + {0: 'outcome, calls of the user functions in order, number of disk entries', 1: 'outcome and number of disk entries', 2: 'outcome and hit / miss'}[MODES.get(tag, 0)])
     return res
